@@ -491,6 +491,7 @@ func (e *Enc) callContract(fr *Frame, ct callTarget, args []Val, common *ssa.Cal
 	// frame
 	post := st
 	if con.HasModifies {
+		e.curCalleeMods = e.calleeMods(ct, args)
 		e.applyModifies(fr, con, mkctx, post, callee)
 		e.restoreLocals(fr, pre, post, nil)
 	}
@@ -551,7 +552,8 @@ func (e *Enc) applyModifies(fr *Frame, con *Contract, mkctx func(*State, []Val) 
 		case target == "all":
 			e.havocAll(st, true)
 		case target == "heaps":
-			e.havocAll(st, false)
+			// refined by the type-based mod analysis (deepmods.go)
+			e.havocMods(st, e.curCalleeMods)
 		case strings.HasPrefix(target, "ghost."):
 			key, srt, _ := e.ghostKey(strings.TrimPrefix(target, "ghost."))
 			st.m[key] = e.B.declConst(key, srt)
@@ -647,8 +649,17 @@ func (e *Enc) havocCall(fr *Frame, ct callTarget, args []Val, common *ssa.CallCo
 	e.note("call to %s abstracted (no contract): result unconstrained, argument-reachable memory havocked", ct.name)
 	preHavoc := st.clone()
 	defer func() { e.restoreLocals(fr, preHavoc, st, nil) }()
+	// an in-package callee with a body: exactly the heaps its code (and the
+	// closures handed to it) can write, by the type-based mod analysis
+	deep := false
+	if ct.inPkg && ct.fn != nil && len(ct.fn.Blocks) > 0 {
+		if mods := e.calleeMods(ct, args); !mods["*"] {
+			e.havocMods(st, mods)
+			deep = true
+		}
+	}
 	for _, a := range args {
-		if a.Typ == nil {
+		if a.Typ == nil || deep {
 			continue
 		}
 		if a.P != nil && a.T == "" {
@@ -785,7 +796,24 @@ func (e *Enc) scanCallMods(fn *ssa.Function, ci ssa.CallInstruction, mods map[st
 			case target == "all":
 				mods["*"] = true
 			case target == "heaps":
-				mods["*heaps"] = true
+				for k := range e.calleeMods(ct, nil) {
+					if k == "*" {
+						mods["*heaps"] = true
+					} else {
+						mods[k] = true
+					}
+				}
+				for _, a := range common.Args {
+					if mc, ok := a.(*ssa.MakeClosure); ok {
+						for k := range e.deepMods(mc.Fn.(*ssa.Function)) {
+							if k == "*" {
+								mods["*heaps"] = true
+							} else {
+								mods[k] = true
+							}
+						}
+					}
+				}
 			case strings.HasPrefix(target, "ghost."):
 				key, _, _ := e.ghostKey(strings.TrimPrefix(target, "ghost."))
 				mods[key] = true
